@@ -215,6 +215,9 @@ def readme_tables():
             paths[m.group(1)] = (m.group(2), m.group(3))
     return agents, paths
 
+UMASK = os.umask(0)
+os.umask(UMASK)
+
 def check_c16(tier, seed):
     R = C.Result("C16", tier, seed)
     repo_dir = C.ensure_repo_build()
@@ -341,6 +344,9 @@ def check_c16(tier, seed):
                                 if relk in tree or a.get(rel, ('?',))[0] == 'd':
                                     if rel in b and rel not in a:
                                         viol("%s removed" % rel)
+                                    # a directory the installer created: the documented directory mode (under the umask)
+                                    if rel not in b and rel in a and a[rel][0] == 'd' and a[rel][1] != (0o755 & ~UMASK):
+                                        viol("directory %s created with mode %o, want %o" % (rel, a[rel][1], 0o755 & ~UMASK))
                                     continue
                                 # a file inside the skill dir that is not part of the tree: must be untouched
                                 if a.get(rel) != b.get(rel):
